@@ -167,6 +167,28 @@ pub fn run(run: &Run) {
             }
         }
     });
+    // runs of 1..=80 capitals of several scripts ending in SIGMA / other context-sensitive letters
+    run.par("capital_runs", true, |tid, n, l| {
+        let mut idx = 0usize;
+        for x in ['A', 'Z', '\u{391}', '\u{3a3}', '\u{414}', '\u{10400}', '\u{130}', '\u{1c5}'] {
+            for len in 0..=80usize {
+                for end in ["\u{3a3}", "\u{3a3}1", "\u{3a3}a", "\u{3a3}\u{3a3}", "\u{130}", "I\u{307}", "\u{3a3} \u{3a3}"] {
+                    idx += 1;
+                    if idx % n != tid {
+                        continue;
+                    }
+                    let s = format!("{}{end}", x.to_string().repeat(len));
+                    l.cases += 1;
+                    for p in profs {
+                        if check(p, &s, l).is_err() {
+                            report(run, p, &s);
+                            return;
+                        }
+                    }
+                }
+            }
+        }
+    });
     // all ordered pairs of characters that have a lowercase mapping (output-size estimates, growing/shrinking mappings)
     run.par("all_pairs_of_cased_characters", true, |tid, n, l| {
         let ca = &pools().cased_all;
